@@ -45,7 +45,7 @@ type c14Case struct {
 	Nested   bool      `json:"nested,omitempty"`
 }
 
-var c14Kinds = []string{"error", "panic-string", "panic-error", "panic-runtime", "bad-sql", "unique", "cancel"}
+var c14Kinds = []string{"error", "panic-string", "panic-error", "panic-runtime", "bad-sql", "unique", "cancel", "error-busy-once", "error-locked-wrapped-once"}
 
 type txer interface {
 	Transaction(ctx context.Context, fn func(*sql.Tx) error) error
@@ -182,10 +182,21 @@ func c14RunTx(db txer, cs *c14Case) (retErr error, pan interface{}) {
 			pan = e
 		}
 	}()
+	calls := 0
 	retErr = db.Transaction(ctx, func(tx *sql.Tx) error {
+		calls++
+		if calls > 1 {
+			// a Transaction that invokes its callback again (a "retry on busy") gets a callback that now succeeds without
+			// doing anything: whatever the first, failed invocation wrote must still be gone
+			return nil
+		}
 		for i := 0; i <= len(cs.Stmts); i++ {
 			if i == cs.FailPos {
 				switch cs.FailKind {
+				case "error-busy-once":
+					return errors.New("database is locked (5) (SQLITE_BUSY)")
+				case "error-locked-wrapped-once":
+					return fmt.Errorf("step %d: %w", i, errors.New("database table is locked: SQLITE_LOCKED"))
 				case "error":
 					return errors.New("callback gives up")
 				case "panic-string":
@@ -525,7 +536,7 @@ func c14Worker(in, out string) {
 func checkC14(tier string) {
 	r := mon.New("C14", tier, "fault_enumeration")
 	maxLen := r.Pick(3, 5)
-	r.Rule = fmt.Sprintf("enumerated: statement sequences (INSERT/UPDATE/DELETE over two tables, unique ids) up to length %d (all of length <=2, every 7th longer one) x every failure position 0..len x 7 failure kinds (error return, 3 panic kinds, failing SQL, constraint violation, context cancelled) x 3 drivers, plus back-to-back pairs, nested transactions, and BulkInsert with a bad row (duplicate key / NULL / ragged) at each position for 7-9 batch sizes; non-trivial = a failure is injected, or nested / back-to-back", maxLen)
+	r.Rule = fmt.Sprintf("enumerated: statement sequences (INSERT/UPDATE/DELETE over two tables, unique ids) up to length %d (all of length <=2, every 7th longer one) x every failure position 0..len x 9 failure kinds (error return, 3 panic kinds, failing SQL, constraint violation, context cancelled, two busy/locked-looking errors from a callback that would succeed if it were invoked again) x 3 drivers, plus back-to-back pairs, nested transactions, and BulkInsert with a bad row (duplicate key / NULL / ragged) at each position for 7-9 batch sizes; non-trivial = a failure is injected, or nested / back-to-back", maxLen)
 	r.Assume("Postgres/MySQL Transaction and BulkInsert code runs over a SQLite-backed *sql.DB put into the unexported db field; server-side behaviour of real PostgreSQL/MySQL is out of reach")
 	ncases := len(c14Cases(maxLen)) + len(c14BulkCases(r.Thorough()))
 	r.Set("enumerated_cases", ncases)
